@@ -134,14 +134,26 @@ def coq_assumptions(prop_id, extra_files=()):
         extra_mods.append(f[len("theories/"):-2].replace("/", "."))
     d = os.path.join(BUILD, "assume")
     os.makedirs(d, exist_ok=True)
-    vf = os.path.join(d, "Assume_%s.v" % prop_id)
-    with open(vf, "w") as f:
-        f.write("From Garr Require Import Properties.%s.\n" % prop_id)
-        for m in extra_mods:
-            f.write("From Garr Require Import %s.\n" % m)
-        for n in names:
-            f.write('Goal True. idtac "@@THEOREM %s". exact I. Qed.\nPrint Assumptions %s.\n' % (n, n))
-    rc, out = sh(["coqc", "-Q", os.path.join(COQ, "theories"), "Garr", vf], cwd=d, timeout=600)
+    # Print Assumptions walks the whole proof term of every theorem: shard the theorem list over parallel coqc runs
+    import subprocess
+    nsh = max(1, min(8, (len(names) + 2) // 3))
+    procs = []
+    for k in range(nsh):
+        part = names[k::nsh]
+        vf = os.path.join(d, "Assume_%s_%d.v" % (prop_id, k))
+        with open(vf, "w") as f:
+            f.write("From Garr Require Import Properties.%s.\n" % prop_id)
+            for m in extra_mods:
+                f.write("From Garr Require Import %s.\n" % m)
+            for n in part:
+                f.write('Goal True. idtac "@@THEOREM %s". exact I. Qed.\nPrint Assumptions %s.\n' % (n, n))
+        procs.append(subprocess.Popen(["timeout", "900", "coqc", "-Q", os.path.join(COQ, "theories"), "Garr", vf], cwd=d,
+                                      stdout=subprocess.PIPE, stderr=subprocess.STDOUT, text=True))
+    rc, out = 0, ""
+    for pr in procs:
+        o, _ = pr.communicate()
+        out += o
+        rc = rc or pr.returncode
     res, cur = {}, None
     for line in out.splitlines():
         m = re.match(r'@@THEOREM (\S+)', line)
